@@ -313,7 +313,10 @@ RecvEv(ws0, v0) ==
 RecvErr(ws, cls) ==
   IF "readfault_on" \in ws.flags /\ cls # "overflow" THEN Note(ws, "read_fault")                                      \* every read fails while the fault is on
   ELSE IF "readfault" \in ws.flags /\ cls # "overflow" THEN Note([ws EXCEPT !.flags = @ \ {"readfault"}], "read_fault")   \* the injected read(2) failure is a genuine one
-  ELSE IF "regfault" \in ws.flags /\ cls = "errno:EINVAL" THEN Note([ws EXCEPT !.flags = @ \ {"regfault"}], "new_directory_unwatchable")
+  \* (the injected fault: the registration of a new directory of the tree failed - that directory is not covered, by construction)
+  ELSE IF "regfault" \in ws.flags /\ cls = "errno:EINVAL"
+       THEN LET N == {i \in DOMAIN ws.uw : ws.uw[i].how = "covered_new" /\ ws.uw[i].st = "live"} IN
+            Note(Relax([ws EXCEPT !.flags = @ \ {"regfault"}, !.uw = Without(@, N)], N), "new_directory_unwatchable")
   ELSE IF "regloop" \in ws.flags /\ cls = "errno:ELOOP" THEN Note([ws EXCEPT !.flags = @ \ {"regloop"}], "new_directory_unwatchable")
   ELSE IF cls = "overflow"
   THEN IF ws.ovf THEN Note([ws EXCEPT !.gotOvf = @ + 1], "overflow")
@@ -407,7 +410,7 @@ IdealAddRec(ws, P, reserr, tree, mask, ret) ==
 \* a directory was created in / moved within a recursively watched tree (from the fs line of the trace)
 CoverNewDir(ws, parentIno, name, ino) ==
   IF parentIno \in DOMAIN ws.uw /\ ws.uw[parentIno].rec /\ ws.uw[parentIno].st = "live" /\ ino \notin DOMAIN ws.uw
-  THEN [ws EXCEPT !.uw = (ino :> [Entry(Append(ws.uw[parentIno].path, name), ws.uw[parentIno].mask, TRUE) EXCEPT !.root = ws.uw[parentIno].root]) @@ @]
+  THEN [ws EXCEPT !.uw = (ino :> [Entry(Append(ws.uw[parentIno].path, name), ws.uw[parentIno].mask, TRUE) EXCEPT !.root = ws.uw[parentIno].root, !.how = "covered_new"]) @@ @]
   ELSE ws
 
 MoveDir(ws, ino, newParentIno, name) ==
